@@ -382,26 +382,27 @@ def r2(ctx: Ctx) -> None:
     # wire length
     fw = ctx.func(NTYPES, "HyperEdge.wire_length")
     cw = canon_function(fw, m)
-    loops = _loops(cw, lambda lp: lp[2] == ("a", s_, "modules"))
     ctx.site(fw.where, "wire length == weight * sum_b |mean(centres) - centre_b| over all members")
+    # the returned value as one expression (however the computation is cut into loops, locals and helper lists)
+    from framelint.symsum import returned_value
+    got = returned_value(cw)
+    b0 = ("b", 1, 0)
+    mods = ("a", s_, "modules")
+    n_ = ("c", ("g", "len"), (mods,), ())
+    total = ("c", ("g", "sum"), (("comp", "gen", (("a", b0, "center"),), ((b0, mods, K_TRUE),)),), ())
+    zero = ("c", ("g", "Point"), (k_num(0), k_num(0)), ())
     ok = False
-    if len(loops) == 2:
-        b1, b2 = loops[0][1], loops[1][1]
-        acc1 = [st for st in loops[0][3] if st[0] == "aug" and st[1] == "Add" and st[3] == ("a", b1, "center")]
-        if len(acc1) == 1:
-            cen = acc1[0][2]
-            div = [st for st in cw if st[0] == "aug" and st[1] == "Div" and st[2] == cen and st[3] == ("c", ("g", "len"), (("a", s_, "modules"),), ())]
-            init = [st for st in cw if st[0] == "set" and st[1] == cen and st[2] == ("c", ("g", "Point"), (k_num(0), k_num(0)), ())]
-            v = (to_poly(cen) - to_poly(("a", b2, "center"))).to_s()
-            v2 = (to_poly(("a", b2, "center")) - to_poly(cen)).to_s()
-            acc2 = [st for st in loops[1][3] if st[0] == "aug" and st[1] == "Add" and
-                    st[3] in (("c", ("g", "sqrt"), (("bin", "BitAnd", v, v),), ()), ("c", ("g", "sqrt"), (("bin", "BitAnd", v2, v2),), ()),
-                              ("c", ("a", v, "norm"), (), ()), ("c", ("a", v2, "norm"), (), ()))]
-            if len(acc2) == 1 and len(div) == 1 and len(init) == 1:
-                wl = acc2[0][2]
-                init2 = [st for st in cw if st[0] == "set" and st[1] == wl and st[2] == k_num(0)]
-                rets = [st for st in cw if st[0] == "ret"]
-                ok = len(init2) == 1 and len(rets) == 1 and rets[0][1] == (to_poly(wl) * to_poly(("a", s_, "weight"))).to_s()
+    for z in (True, False):                     # the sum of the centres may start from Point(0, 0)
+        cen = (to_poly(total) + (to_poly(zero) if z else Poly())) * to_poly(("inv", n_))
+        for sign in (1, -1):
+            v = ((cen - to_poly(("a", b0, "center"))) * Poly.const(sign)).to_s()
+            from framelint.canon import Sigma as _Sg
+            v = _Sg(raw_subst={}).apply(v)
+            for dist in (("c", ("g", "sqrt"), (("bin", "BitAnd", v, v),), ()), ("c", ("a", v, "norm"), (), ())):
+                # inside the outer sum the centroid's own sum is one comprehension level further in: its bound variable is its own
+                want = (to_poly(("a", s_, "weight")) * to_poly(("c", ("g", "sum"), (("comp", "gen", (dist,), ((b0, mods, K_TRUE),)),), ()))).to_s()
+                if got == want:
+                    ok = True
     if not ok:
         ctx.report(fw.where, "wirelength-definition", "HyperEdge.wire_length is not weight * sum of distances from each member centre to the mean of all member centres",
                    lineno=fw.node.lineno)
